@@ -17,19 +17,33 @@ from . import backends, cfront
 class SV:
     """Attribute view of a struct value: sv.x, sv.ri_whfast.p_jh ..."""
 
-    def __init__(self, ctx, sobj):
+    def __init__(self, ctx, sobj, parent=None, name=None):
         object.__setattr__(self, "_ctx", ctx)
         object.__setattr__(self, "_s", sobj)
+        object.__setattr__(self, "_parent", parent)
+        object.__setattr__(self, "_name", name)
 
     def _cur(self):
-        """The object as it is in the current state: merging the two branches of an `if` replaces the
-        top-level objects of the memory by merged copies (same id), so look the id up again."""
+        """The object as it is in the current state: cloning a state (fork) or merging the two branches of an `if` replaces
+        the objects of the memory by copies (same id), so look the id up again; a nested struct (r.ri_whfast) has no id of
+        its own and is re-resolved through its parent, so that a view taken before a call still reads the current state
+        after it (a stale nested view silently returned the values of the state it was taken in)."""
         s = self._s
         o = self._ctx.st.mem.objs.get(s.id) if isinstance(s.id, int) and s.id > 0 else None
-        return o if isinstance(o, StructObj) else s
+        if isinstance(o, StructObj):
+            return o
+        par = self._parent
+        if par is not None:
+            pc = par._cur()
+            sub = pc.fields.get(self._name)
+            if isinstance(sub, StructObj):
+                return sub
+        return s
 
     def __getattr__(self, name):
         v = self._ctx.eng._lazy_field(self._cur(), name, self._ctx.st)
+        if isinstance(v, StructObj):
+            return SV(self._ctx, v, self, name)
         return self._ctx.wrap(v)
 
     def __setattr__(self, name, value):
